@@ -267,6 +267,13 @@ func (s *CAStore) addToMemoryCache(
 	}
 
 	data := tmpWriter.Bytes()
+	if uint64(len(data)) != size {
+		// The reservation was made for `size` bytes but the entry would be
+		// accounted by len(data) on removal, leaking (or over-releasing) the
+		// difference. Let the caller release the reservation and fall back
+		// to the disk path, which verifies the content.
+		return fmt.Errorf("blob size mismatch: reserved %d bytes, got %d", size, len(data))
+	}
 	metaInfo, err := s.generateMetadataFromBytes(name, data, pieceLength)
 	if err != nil {
 		return fmt.Errorf("generating metainfo: %w", err)
